@@ -192,6 +192,8 @@ class History:
         first; the random suffix then deletes, replaces and re-indexes around them."""
         from dlv import mgmt as G
         names = rng.sample(['bbb_v7_enc.mp4', 'bbb_a1_enc.mp4', 'bbb_v7.mp4'], rng.choice([2, 3]))
+        if rng.random() < 0.3:
+            names = ['bbb_v7.mp4', 'bbb_v7_enc.mp4'] + ([] if rng.random() < 0.5 else ['bbb_a1_enc.mp4'])
         two_streams = rng.random() < 0.4
 
         def last_stream(w, k=1):
@@ -243,6 +245,33 @@ class History:
                 via = (others or refs)[0]['pk']
                 return rng.choice([G.op_delete_media, G.op_delete_media_form])(via, mine[0]['pk'])
             out += [set_ref, delete_via_other]
+        elif tail < 0.7:
+            # give one (video) file another track id, then describe the stream's tracks in a multi-period stream:
+            # a track of the definition may now have no media, or two video files may differ in track id
+            def set_ref2(w):
+                fs = [f for f in w['files'] if f.get('rep') and f.get('content_type') == 'video'] or [f for f in w['files'] if f.get('rep')]
+                if not fs:
+                    return None
+                f = fs[0]
+                s_ = next((x for x in w['streams'] if x['pk'] == f['stream']), None)
+                return G.op_edit_stream(s_['pk'], s_['title'], s_['directory'], timing_ref=f['name']) if s_ else None
+
+            def retrack(w):
+                fs = [f for f in w['files'] if f.get('rep') and f.get('content_type') == 'video']
+                if not fs:
+                    return None
+                clear = [f for f in fs if not f.get('encrypted')]
+                f = rng.choice(clear or fs)
+                return G.op_edit_media(f['stream'], f['pk'], rng.choice([2, 3, 7]), 'eng')
+
+            def mps_over(w):
+                refs = [x for x in w['streams'] if x.get('timing_reference')]
+                if not refs:
+                    return None
+                return G.op_add_mps('mpsT', 'MPS after a track edit', [
+                    {'pid': 'p1', 'stream_pk': refs[0]['pk'], 'start': 'PT0S', 'duration': 'PT16S',
+                     'tracks': rng.choice([[1], [1, 2], [1, 2, 3], [2]])}])
+            out += [set_ref2, retrack, mps_over] if rng.random() < 0.5 else [set_ref2, mps_over, retrack]
         return out
 
     def gen_op(self, rng, w: dict) -> dict:
